@@ -52,6 +52,8 @@ func (c *C05Case) config() (*configuration.Configuration, *iterModel) {
 		cfg.Iterator.DefaultFieldOmitBehavior = configuration.OmitFieldNever
 	case "zero":
 		cfg.Iterator.DefaultFieldOmitBehavior = configuration.OmitFieldZero
+	case "always":
+		cfg.Iterator.DefaultFieldOmitBehavior = configuration.OmitFieldAlways
 	default:
 		cfg.Iterator.DefaultFieldOmitBehavior = configuration.OmitFieldEmpty
 	}
@@ -94,7 +96,7 @@ func (c *C05Case) expectedDoc(m *iterModel) *canon.Node {
 	sort.SliceStable(rts, func(i, j int) bool { return rts[i].name < rts[j].name })
 	for _, r := range rts {
 		n := &canon.Node{Kind: canon.KRecordType, Bytes: []byte(r.name)}
-		for _, f := range m.flatten(r.st, nil, nil) {
+		for _, f := range m.recordFields(r.st, nil) {
 			n.Children = append(n.Children, strNode(m.fieldName(f.tag)))
 		}
 		doc.Children = append(doc.Children, n)
@@ -109,12 +111,13 @@ func init() {
 		New: func() interface{} { return &C05Case{} },
 		Gen: func(t *rapid.T, ctx *Ctx) interface{} {
 			o := valOpts(ctx)
+			o.IfaceContainers = true
 			o.FixedZone = false
 			avoidVal(o, "S4-edge-iterator-no-end", "S3-bool-slice-packing", "S44-float32-snan-quieted")
 			c := &C05Case{ValCase: *genValCase(t, ctx, o)}
 			c.Records = rapid.IntRange(0, 2).Draw(t, "records") == 0
 			c.Recursion = rapid.Bool().Draw(t, "recursion")
-			c.Omit = rapid.SampledFrom([]string{"empty", "empty", "never", "zero"}).Draw(t, "omit")
+			c.Omit = rapid.SampledFrom([]string{"empty", "empty", "never", "zero", "always"}).Draw(t, "omit")
 			c.Camel = rapid.Bool().Draw(t, "camel")
 			if c.Recursion && hasZeroSizeElems(c.Type) && findingOpen("S52-same-address-slices-merged") {
 				ctx.Stats.Exclude("S52-same-address-slices-merged")
